@@ -523,6 +523,19 @@ async fn exec_op(env: &Arc<Env>, c: u16, i: u16, op: Op, slots: &mut Vec<Slot>) 
             }
             end(c, i, Res::Ok);
         }
+        Op::DropPanicking { slot } => {
+            let (tag, hk) = (tag_of(slots, slot), hk_of(slots, slot));
+            begin(c, i, OpK::DropPanicking, hk, Path::NA, tag, 0, slot, 0);
+            if let Some(s) = slots.get_mut(slot as usize) {
+                let old = std::mem::replace(s, Slot::empty());
+                // the slot (and with it the handle) is dropped by the unwinding itself
+                let _ = std::panic::catch_unwind(std::panic::AssertUnwindSafe(move || {
+                    let _held = old;
+                    std::panic::panic_any(crate::actors::InjectedPanic);
+                }));
+            }
+            end(c, i, Res::Ok);
+        }
         Op::DropAll => {
             begin(c, i, OpK::Drop, Hk::None, Path::NA, u32::MAX, 0, u16::MAX, 0);
             for s in slots.iter_mut() {
